@@ -46,17 +46,17 @@ void checkLengths(const Ctx& c, NifFile& nif, NiShape* s, const char* after) {
 	R_eval();
 	size_t nv = s->GetNumVertices();
 	auto bad = [&](const char* q, size_t len) { R_viol("length-after-setter", c.site(q), c.what + fmt(": after %s, %s has %zu entries but the shape has %zu vertices", after, q, len, nv)); };
-	std::vector<Vector3> v;
+	std::vector<Vector3> v(2, Vector3(7, 7, 7));   // output objects arrive holding an earlier answer
 	if (nif.GetVertsForShape(s, v) && v.size() != nv) return bad("verts", v.size());
-	std::vector<Vector2> uv;
+	std::vector<Vector2> uv(2, Vector2(7, 7));
 	if (nif.GetUvsForShape(s, uv) && uv.size() != nv) return bad("uvs", uv.size());
 	if (auto n = nif.GetNormalsForShape(s)) if (s->HasNormals() && n->size() != nv) return bad("normals", n->size());
-	std::vector<Vector3> t, b;
+	std::vector<Vector3> t(2, Vector3(7, 7, 7)), b(5, Vector3(7, 7, 7));
 	if (nif.GetTangentsForShape(s, t) && t.size() != nv) return bad("tangents", t.size());
 	if (nif.GetBitangentsForShape(s, b) && b.size() != nv) return bad("bitangents", b.size());
-	std::vector<Color4> col;
+	std::vector<Color4> col(2, Color4(7, 7, 7, 7));
 	if (nif.GetColorsForShape(s, col) && col.size() != nv) return bad("colors", col.size());
-	std::vector<float> eye;
+	std::vector<float> eye(2, 7.0f);
 	if (NifFile::GetEyeDataForShape(s, eye) && eye.size() != nv) return bad("eye", eye.size());
 }
 
@@ -79,11 +79,11 @@ void checkAgainst(const Ctx& c, NifFile& nif, NiShape* s, const Geo& g, bool fro
 	bool halfPos = bs && fromFile && !(bst->IsFullPrecision() || nif.GetHeader().GetVersion().IsSSE());
 	size_t nv = g.verts.size();
 	if (s->GetNumVertices() != nv) { R_viol("vertex-count", c.site("numVertices"), c.what + fmt(": GetNumVertices() = %u, expected %zu", s->GetNumVertices(), nv)); return; }
-	std::vector<Vector3> v;
+	std::vector<Vector3> v(2, Vector3(7, 7, 7));   // output objects arrive holding an earlier answer
 	nif.GetVertsForShape(s, v);
 	cmpV3(c, "verts", v, g.verts, nv, 0.0f, halfPos);
 	if (auto pv = nif.GetVertsForShape(s)) cmpV3(c, "vertsPtr", *pv, g.verts, nv, 0.0f, halfPos);
-	std::vector<Triangle> t;
+	std::vector<Triangle> t(2, Triangle(7, 7, 7));
 	s->GetTriangles(t);
 	if (g.trisAsMultiset && fromFile) {
 		R_eval();
@@ -95,7 +95,7 @@ void checkAgainst(const Ctx& c, NifFile& nif, NiShape* s, const Geo& g, bool fro
 	}
 	else cmpTris(c, "triangles", t, g.tris, g.tris.size());
 	if (s->GetNumTriangles() != g.tris.size()) R_viol("triangle-count", c.site("numTriangles"), c.what + fmt(": GetNumTriangles() = %u, expected %zu", s->GetNumTriangles(), g.tris.size()));
-	std::vector<Vector2> uv;
+	std::vector<Vector2> uv(2, Vector2(7, 7));
 	if (!g.uvs.empty()) {
 		if (nif.GetUvsForShape(s, uv)) cmpV2(c, "uvs", uv, g.uvs, nv, bs && fromFile);
 		else if (nv > 0) R_viol("missing", c.site("uvs"), c.what + ": GetUvsForShape reports no UVs");
@@ -107,7 +107,7 @@ void checkAgainst(const Ctx& c, NifFile& nif, NiShape* s, const Geo& g, bool fro
 		else cmpV3(c, "normals", *n, g.normals, nv, bs ? q : 0.0f);
 	}
 	if (g.hasTangents) {
-		std::vector<Vector3> tg, bt;
+		std::vector<Vector3> tg(2, Vector3(7, 7, 7)), bt(5, Vector3(7, 7, 7));
 		if (!nif.GetTangentsForShape(s, tg)) R_viol("missing", c.site("tangents"), c.what + ": tangents were set but GetTangentsForShape reports none");
 		else cmpV3(c, "tangents", tg, g.tangents, nv, bs ? q : 0.0f);
 		if (!nif.GetBitangentsForShape(s, bt)) R_viol("missing", c.site("bitangents"), c.what + ": bitangents were set but GetBitangentsForShape reports none");
@@ -120,7 +120,7 @@ void checkAgainst(const Ctx& c, NifFile& nif, NiShape* s, const Geo& g, bool fro
 		}
 	}
 	if (g.hasColors) {
-		std::vector<Color4> col;
+		std::vector<Color4> col(2, Color4(7, 7, 7, 7));
 		if (!nif.GetColorsForShape(s, col)) R_viol("missing", c.site("colors"), c.what + ": colours were set but GetColorsForShape reports none");
 		else {
 			R_eval();
@@ -132,7 +132,7 @@ void checkAgainst(const Ctx& c, NifFile& nif, NiShape* s, const Geo& g, bool fro
 		}
 	}
 	if (g.hasEye && bs) {
-		std::vector<float> eye;
+		std::vector<float> eye(2, 7.0f);
 		if (!NifFile::GetEyeDataForShape(s, eye)) R_viol("missing", c.site("eye"), c.what + ": eye data was set but GetEyeDataForShape reports none");
 		else { R_eval(); if (eye != g.eye) R_viol("value", c.site("eye"), c.what + ": eye data differs from what was set"); }
 	}
@@ -370,6 +370,6 @@ MonReg reg({"C13", "exploration",
 			"with/without normals x seeds. Per case: CreateShapeFromData, then every getter compared with the given data (exact in memory; after raw save+load: positions exact or "
 			"half-rounded where the vertex descriptor says half, BSTriShape UVs half-rounded, byte-quantised normals/tangents/colours within 1/255, eye data and bitangent.x exact), then "
 			"each setter (positions, UVs, normals, tangents, bitangents, colours, eye data, triangles, bounds) followed by all getters: value within the storage quantisation, every "
-			"per-vertex array keeps the vertex count; again after raw and after default save+load; a third of the unskinned models then go through a second generation on the same, already saved object (random vertices deleted, every attribute set again for the smaller count, getters and raw save+load compared). Over-long inputs must be clamped to the 16-bit limits. Non-trivial = every case.",
+			"per-vertex array keeps the vertex count (getters are handed vectors that still hold an earlier answer); again after raw and after default save+load; a third of the unskinned models then go through a second generation on the same, already saved object (random vertices deleted, every attribute set again for the smaller count, getters and raw save+load compared). Over-long inputs must be clamped to the 16-bit limits. Non-trivial = every case.",
 			[] { return (size_t)360 * (g_cfg.tier ? 24 : 2); }, run, 12, 300.0, false, false, nullptr});
 } // namespace
